@@ -287,13 +287,16 @@ def euler(ai, bi, select, b1950=False, dtype="f8"):
     sb = sin(b)
     cb = cos(b)
     cbsa = cb * sin(a)
-    b = -stheta[i] * cbsa + ctheta[i] * sb
-    (w,) = np.where(b > 1.0)
-    if w.size > 0:
-        b[w] = 1.0
-    bo = arcsin(b) * R2D
+    # components of the rotated unit vector.  The latitude is taken from
+    # arctan2 rather than arcsin(z): arcsin is ill conditioned near the
+    # poles (1e-4 degree errors from the 11 digit constants) and gave nan
+    # when rounding pushed z below -1
+    x = cb * cos(a)
+    y = ctheta[i] * cbsa + stheta[i] * sb
+    z = -stheta[i] * cbsa + ctheta[i] * sb
+    bo = arctan2(z, np.sqrt(x * x + y * y)) * R2D
 
-    a = arctan2(ctheta[i] * cbsa + stheta[i] * sb, cb * cos(a))
+    a = arctan2(y, x)
 
     ao = ((a + psi[i] + fourpi) % twopi) * R2D
 
